@@ -2,8 +2,11 @@
 """Print the prompt given to an independent sub-agent that seeds a property-breaking change.
 Only the property text and the scratch worktree path are given (nothing from /verif)."""
 import json, sys
-pid, wt = sys.argv[1], sys.argv[2]
+pid, wt = sys.argv[1][:3], sys.argv[2]
+round2 = len(sys.argv[1]) > 3
 extra = sys.argv[3] if len(sys.argv) > 3 else ""
+if len(sys.argv[1]) > 3:
+    extra += "\nThis is a SECOND-ROUND request: an obvious off-by-one in the main loop has already been tried. Prefer a change that is subtle: e.g. only wrong for a rare combination of options or data shape, an error path, a caching/state-carrying effect between calls, a concurrency window, an integer-width or boundary-value issue, or two edits in different functions that are each harmless alone.\n"
 p = next(json.loads(l) for l in open('/verif/properties.jsonl') if json.loads(l)['id'] == pid)
 print(f"""You are helping to evaluate a verification framework for the Rust project jackh726/bigtools (a library and CLI tools for reading/writing UCSC bigWig/bigBed files). You work ONLY inside the scratch git worktree at {wt} (a checkout of the project; never touch /repo or /verif, and do not read anything under /verif). The sandbox is offline: use `cargo ... --offline`; build output must stay inside the worktree (e.g. `CARGO_TARGET_DIR={wt}/target`). Keep CPU use modest (`-j 4`).
 
